@@ -134,6 +134,50 @@ func streamRoute(c *ctx) {
 		rs.close()
 		c.w.Emit("route-twice tcp bind=fixed", from, "route/tcp-same-endpoint-repeated")
 	}
+	// the (bind address:port -> controller) TCP 4-tuple is taken by another connection when the call is made (another process
+	// sharing the bind port, or the previous connection still in TIME_WAIT): the call may fail, but nothing may reach the
+	// controller from any other source address or port
+	{
+		bind := freePort()
+		rs := newTCPResponder("127.0.0.7", echo(func() time.Duration { return 3 * time.Millisecond }))
+		ap := netip.MustParseAddrPort(rs.addr())
+		occupied := "occupied"
+		d := net.Dialer{Timeout: time.Second, LocalAddr: &net.TCPAddr{IP: net.IPv4(127, 0, 0, 9), Port: bind},
+			Control: func(network, address string, c syscall.RawConn) error {
+				var operr error
+				if err := c.Control(func(fd uintptr) { operr = syscall.SetsockoptInt(int(fd), syscall.SOL_SOCKET, syscall.SO_REUSEADDR, 1) }); err != nil {
+					return err
+				}
+				return operr
+			}}
+		hold, err := d.Dial("tcp4", rs.addr())
+		if err != nil {
+			occupied = "not-occupied"
+		}
+		u := uhppote.NewUHPPOTE(types.BindAddrFrom(netip.MustParseAddr("127.0.0.9"), uint16(bind)), types.BroadcastAddr{}, types.ListenAddrFrom(netip.MustParseAddr("127.0.0.1"), 60001), T,
+			[]uhppote.Device{{DeviceID: 5200001, Address: types.ControllerAddrFrom(ap.Addr(), ap.Port()), Protocol: "tcp"}}, false)
+		for i := 0; i < 2; i++ {
+			getCard(u, 5200001, 424242)
+		}
+		time.Sleep(20 * time.Millisecond)
+		from := "nothing-from-another-address-or-port"
+		rs.mu.Lock()
+		for _, f := range rs.from {
+			if f != fmt.Sprintf("127.0.0.9:%d", bind) {
+				from = "from-another-address-or-port"
+			}
+		}
+		rs.mu.Unlock()
+		if hold != nil {
+			hold.Close()
+		}
+		rs.close()
+		if occupied == "occupied" {
+			c.w.Emit("route-occupied tcp bind=fixed", occupied+" "+from, "route/tcp-4-tuple-occupied")
+		} else {
+			c.w.Notes = append(c.w.Notes, "route-occupied: the harness could not take the 4-tuple itself ("+err.Error()+"): scenario skipped")
+		}
+	}
 	c.w.Notes = append(c.w.Notes, "route stream: 8 loopback endpoints (127.0.0.2..5, UDP and TCP); a controller that is unconfigured / configured without address / with 0.0.0.0 / udp / tcp / other protocol; bind port 0 and fixed; which endpoints receive the single request and from which source address and port")
 }
 
